@@ -15,7 +15,7 @@ import (
 // C04: SM3 as a streaming hash.Hash driven by an environment that chooses
 // chunking and the operation history; reference = refsm3 op by op.
 
-var hashFaults = []string{"empty-write", "one-byte-write", "write-across-block", "aliased-buffer-overwritten", "sum-mid-stream", "sum-prefix-spare-cap", "sum-prefix-no-cap", "reset-mid-stream", "multi-mib-stream", "interleaved-objects", "oneshot-between-writes"}
+var hashFaults = []string{"empty-write", "one-byte-write", "write-across-block", "aliased-buffer-overwritten", "sum-mid-stream", "sum-prefix-spare-cap", "sum-prefix-no-cap", "reset-mid-stream", "multi-mib-stream", "interleaved-objects", "oneshot-between-writes", "stream-beyond-2^32-bits"}
 var hashReach = []string{"len-55-56", "len-63-64-65", "len-119-120", "sum-twice-same", "write-after-sum", "hmac-checked", "pbkdf2-checked", "oneshot-checked", "history>=8", "reset-then-reuse"}
 
 func init() {
@@ -55,6 +55,10 @@ func hashStreamRun(c *simkit.Choice, r *simkit.Rec) {
 		return
 	case 3:
 		if c.Bool(1, 10, simkit.LScen) {
+			if c.Bool(1, 400, simkit.LScen) {
+				hashHuge(c, r)
+				return
+			}
 			hashBig(c, r)
 			return
 		}
@@ -356,6 +360,60 @@ func hashBig(c *simkit.Choice, r *simkit.Rec) {
 	}
 	r.Fault(idx(hashFaults, "multi-mib-stream"))
 	r.Detail = map[string]interface{}{"mode": "big", "len": L}
+	r.Outcome = "ok"
+}
+
+// hashHuge: one stream long enough for the bit length to pass 2^32 (512 MiB),
+// fed in large pieces of a periodic pattern; the digest is compared with the
+// reference just below the boundary, just above it and at the end.
+func hashHuge(c *simkit.Choice, r *simkit.Rec) {
+	const boundary = 1 << 29 // bytes at which the bit length reaches 2^32
+	L := boundary + []int{0, 1, 64, 1<<20 + 17, 5 << 20}[c.Choose(5, simkit.LScen)]
+	pat := drawData(c, 4099) // period coprime to the block size
+	chunk := make([]byte, 8<<20)
+	for i := range chunk {
+		chunk[i] = pat[i%len(pat)]
+	}
+	r.Config = "huge"
+	r.Sig(uint64(L) | 6<<40)
+	a := sm3.New()
+	b := refsm3.New()
+	written := 0
+	feed := func(n int) {
+		for n > 0 {
+			// keep the pattern phase: always start at (written mod period)
+			k := n
+			if k > len(chunk)-len(pat) {
+				k = len(chunk) - len(pat)
+			}
+			ph := written % len(pat)
+			a.Write(chunk[ph : ph+k])
+			b.Write(chunk[ph : ph+k])
+			written += k
+			n -= k
+		}
+	}
+	check := func(where string) bool {
+		if !bytes.Equal(a.Sum(nil), b.Sum(nil)) {
+			r.Violate("digest-mismatch", "sm3.Sum(nil)", fmt.Sprintf("stream of %d bytes (%s the 2^32-bit boundary) differs from reference", written, where))
+			return false
+		}
+		return true
+	}
+	feed(boundary - 64 - c.Range(0, 4096, simkit.LIO))
+	if !check("just below") {
+		return
+	}
+	feed(boundary - written)
+	if !check("exactly at") {
+		return
+	}
+	feed(L - written + c.Range(1, 3000, simkit.LIO))
+	if !check("above") {
+		return
+	}
+	r.Fault(idx(hashFaults, "stream-beyond-2^32-bits"))
+	r.Detail = map[string]interface{}{"mode": "huge", "len": written}
 	r.Outcome = "ok"
 }
 
